@@ -482,9 +482,48 @@ func c16Retry(c *eng.Ctx, lk *ssa.Function, do *ssa.Call, lit *ssa.Function) {
 				}
 			}
 		}
-		c.Check(dep || bounded, "R-C16-5", lk, b.Instrs[len(b.Instrs)-1].Pos(), site+" [winner vs waiter]",
-			"the retry condition depends on a variable written inside the function passed to Do (a 'this call ran the fetch' witness) or on a counter compared with a constant bound",
+		_ = bounded // a bounded counter alone is NOT accepted: it fails waiters for other callers' cancellations (R-C16-6)
+		c.Check(dep, "R-C16-5", lk, b.Instrs[len(b.Instrs)-1].Pos(), site+" [winner vs waiter]",
+			"the retry condition depends on a variable written inside the function passed to Do (a 'this call ran the fetch' witness)",
 			"the edge depends only on "+factsStr(conds)+": the caller that ran the fetch itself and hit the fallback timeout has ctx.Err()==nil and retries forever when the service hangs (no answer within the five-minute limit)")
 		c.Check(ownCtx, "R-C16-6", lk, b.Instrs[len(b.Instrs)-1].Pos(), site+" [own context]", "a retry happens only while the caller's own ctx.Err() is nil", "conditions: "+factsStr(conds))
 	}
+	// R-C16-6: a waiter is never failed by someone else's cancellation: assuming the shared
+	// error is a context error, the caller's own context is alive and this call did not run
+	// the fetch, no return is reachable (the only way on is another attempt).
+	waiter := func(b *ssa.BasicBlock, i int) bool {
+		ifi, ok := b.Instrs[len(b.Instrs)-1].(*ssa.If)
+		if !ok {
+			return true
+		}
+		cond := eng.CondOf(ifi.Cond, i == 0)
+		if v, isNil, isE := cond.ErrCheck(); isE {
+			if eng.Same(v, derr) {
+				return !isNil // the shared lookup failed
+			}
+			if call, _ := eng.TupleCall(v); call != nil && call.Call.IsInvoke() && call.Call.Method.Name() == "Err" && ctxP != nil && eng.Origin(call.Call.Value) == ssa.Value(ctxP) {
+				return isNil // own context alive
+			}
+		}
+		if is, truth := isCtxErrIs(cond); is {
+			// assume the error is context.DeadlineExceeded (first test true); Canceled analogous
+			_ = truth
+			call, _, _, _ := cond.BoolCall()
+			if eng.IsGlobalLoad(call.Call.Args[1], "context", "DeadlineExceeded") {
+				return truth
+			}
+			return true
+		}
+		if bv, truth, isB := cond.Bool(); isB && witness(eng.Origin(bv)) {
+			return !truth // this call did not run the fetch
+		}
+		return true
+	}
+	hitW, pathW := eng.Search(lk, do, waiter, nil, eng.IsReturn)
+	c.Check(hitW == nil, "R-C16-6", lk, do.Pos(), "waiter whose flight ended with a foreign context error", "is never handed that error: with a context error, its own context alive and the fetch not run by this call, the only continuation is another attempt (no attempt cap)", func() string {
+		if hitW == nil {
+			return ""
+		}
+		return "return at " + p.Pos(hitW.Pos()) + " reachable: " + p.PathStr(pathW)
+	}())
 }
